@@ -9,7 +9,7 @@ while read P X CRATE CHECKS; do
   python3 - "$P" "$X" "$CRATE" "$DST" <<'PY'
 import sys,json,re
 p,x,crate,dst=sys.argv[1:5]
-log=open(dst+'/verification.log').read()
+log=open(dst+'/verification.log',errors='replace').read()
 res={}
 for m in re.finditer(r'^== (C\d+) exit=(\d+) (\d+) VIOLATION lines',log,re.M):
     res[m.group(1)]={'exit':int(m.group(2)),'violation_lines':int(m.group(3))}
